@@ -106,3 +106,63 @@ example : managerGet (some exT) [2, 2] exImp [7, -3] = ([1, 0], [true, true], so
 example : allDesignVectors exT [2, 2] = [[0, -1], [1, 0], [1, 1]] := by decide
 
 end Adsg.C10
+
+/-! ### The code as it is today (`managerGetImpl`): same vector and matrix, different activeness on a direct hit -/
+namespace Adsg.C10
+open Adsg
+
+/-- The implemented decode returns the same corrected vector and the same matrix as the reference
+    semantics, for every vector; only the reported activeness can differ. Hence totality, validity,
+    range, onto-ness and injectivity (`get_valid`, `get_in_range`, `get_onto`, `get_injective`) carry
+    over to the code as it is. -/
+theorem impl_same_vector_and_matrix (t : Table) (nOpts : List Nat) (imp : List Int → Nat) (h : Ctx t nOpts imp)
+    (x : List Int) (hx : nOpts.length ≤ x.length) :
+    (managerGetImpl (some t) nOpts imp x).1 = (managerGet (some t) nOpts imp x).1 ∧
+    (managerGetImpl (some t) nOpts imp x).2.2 = (managerGet (some t) nOpts imp x).2.2 :=
+  managerGetImpl_same' (WFP.of_wf h.wf) x hx
+
+/-- Vector and matrix are a fixed point of the implemented decode as well. -/
+theorem impl_idempotent_vector_matrix (t : Table) (nOpts : List Nat) (imp : List Int → Nat) (h : Ctx t nOpts imp)
+    (x : List Int) (hx : nOpts.length ≤ x.length) :
+    let r := managerGetImpl (some t) nOpts imp x
+    (managerGetImpl (some t) nOpts imp r.1).1 = r.1 ∧ (managerGetImpl (some t) nOpts imp r.1).2.2 = r.2.2 := by
+  have w := WFP.of_wf h.wf
+  obtain ⟨h1, h2⟩ := managerGetImpl_same' (imp := imp) w x hx
+  have hlen : nOpts.length ≤ (managerGet (some t) nOpts imp x).1.length := by
+    rw [(get_in_range' w h.pos h.imp_lt x hx).1]; exact hx
+  obtain ⟨h3, h4⟩ := managerGetImpl_same' (imp := imp) w _ hlen
+  have hid := get_idempotent' w h.pos h.imp_lt x hx
+  intro r
+  show (managerGetImpl (some t) nOpts imp (managerGetImpl (some t) nOpts imp x).1).1 =
+      (managerGetImpl (some t) nOpts imp x).1 ∧
+    (managerGetImpl (some t) nOpts imp (managerGetImpl (some t) nOpts imp x).1).2.2 =
+      (managerGetImpl (some t) nOpts imp x).2.2
+  rw [h1, h2, h3, h4, hid]
+  exact ⟨rfl, rfl⟩
+
+/-- On the imputation path (no direct hit) the implemented activeness is the table's marks … -/
+theorem impl_activeness_imputed (t : Table) (nOpts : List Nat) (imp : List Int → Nat) (h : Ctx t nOpts imp)
+    (x : List Int) (hx : nOpts.length ≤ x.length) (hmiss : t.hit (clampVec nOpts x) = none) :
+    managerGetImpl (some t) nOpts imp x = managerGet (some t) nOpts imp x := by
+  -- holds for every table and vector; `h`, `hx` are only the shared context of the family
+  have _ := h; have _ := hx
+  exact managerGetImpl_of_miss x hmiss
+
+/-- … but on a direct hit every variable of the pattern is reported active: the full property
+    "activeness is the same on every path" is FALSE of the code as it is. Concrete witness: the
+    vector `[0, 0]` hits the row `[0, −1]` directly and is reported `[active, active]`, while the
+    enumeration lists that design with the second variable inactive (and `[0, 1]`, which is imputed
+    to the same row, is reported `[active, inactive]`). -/
+theorem impl_direct_hit_activeness_mismatch :
+    ∃ (t : Table) (nOpts : List Nat) (imp : List Int → Nat) (x y : List Int),
+      Ctx t nOpts imp ∧
+      (managerGetImpl (some t) nOpts imp x).1 = (managerGetImpl (some t) nOpts imp y).1 ∧
+      (managerGetImpl (some t) nOpts imp x).2.1 ≠ (managerGetImpl (some t) nOpts imp y).2.1 := by
+  refine ⟨exT, [2, 2], fun _ => 0, [0, 0], [0, 1], ⟨by decide, by decide, by decide, ?_⟩,
+    by decide, by decide⟩
+  intro _; decide
+
+example : managerGetImpl (some exT) [2, 2] (fun _ => 0) [0, 0] = ([0, 0], [true, true], some [[0, 0]]) := by decide
+example : managerGetImpl (some exT) [2, 2] (fun _ => 0) [0, 1] = ([0, 0], [true, false], some [[0, 0]]) := by decide
+
+end Adsg.C10
